@@ -281,6 +281,31 @@ func c09DistinctOpts6(n, code, fixed int) []byte {
 	return out
 }
 
+// c09TwoCodes6: thousands of empty options of one code, then thousands of minimal
+// well-formed instances of another: a decoder that does work proportional to the list
+// parsed so far for every instance of the second code (removing an earlier instance,
+// searching for one) is quadratic only when BOTH are many (seeded change C09-15).
+func c09TwoCodes6(n, code, fixed int, interleave bool) []byte {
+	out := append([]byte{}, c09MsgHdr6...)
+	item := c09Tlv6(code, make([]byte, fixed))
+	if code == 1 || code == 2 {
+		item = c09Tlv6(code, []byte{0x0f, 0x0f, 1, 2, 3, 4})
+	}
+	i := 0
+	for len(out)+4+len(item) <= n {
+		if interleave {
+			out = append(out, 0, 150, 0, 0)
+			out = append(out, item...)
+		} else if len(out) < n*3/5 {
+			out = append(out, 0, 150, 0, 0)
+		} else {
+			out = append(out, item...)
+		}
+		i++
+	}
+	return out
+}
+
 // c09Repeated: value made of `item` c09Repeated as often as fits after `head`.
 func c09Repeated(n int, head, item []byte) []byte {
 	out := append([]byte{}, head...)
@@ -524,6 +549,11 @@ func costFamilies() []costFamily {
 	for _, cf := range [][2]int{{3, 12}, {4, 4}, {25, 12}, {5, 24}, {26, 25}, {13, 2}, {1, 6}, {2, 6}, {8, 2}, {32, 4}, {23, 16}, {37, 4}, {79, 8}, {135, 2}, {62, 3}, {88, 16}, {17, 4}, {150, 4}} {
 		cf := cf
 		fs = append(fs, c09Fam(fmt.Sprintf("distinct-opts-%d", cf[0]), "v6", func(n int) []byte { return c09DistinctOpts6(n, cf[0], cf[1]) }))
+	}
+	for _, cf := range [][2]int{{1, 6}, {2, 6}, {8, 2}, {32, 4}, {13, 2}, {6, 2}, {14, 0}, {3, 12}} {
+		cf := cf
+		fs = append(fs, c09Fam(fmt.Sprintf("two-codes-150-then-%d", cf[0]), "v6", func(n int) []byte { return c09TwoCodes6(n, cf[0], cf[1], false) }))
+		fs = append(fs, c09Fam(fmt.Sprintf("two-codes-150-and-%d", cf[0]), "v6", func(n int) []byte { return c09TwoCodes6(n, cf[0], cf[1], true) }))
 	}
 	fs = append(fs, c09Fam("wide-ia", "v6", c09WideIA6))
 	fs = append(fs, c09Fam("one-generic", "v6", func(n int) []byte { return c09InMsg6(n, 150, make([]byte, c09MaxUDP)) }))
